@@ -410,8 +410,8 @@ fn start_watchdog(prop: &'static str, limit_s: u64) {
                     let path = format!("{}/replays/{}-hang-{:016x}.json", verif_dir(), prop, hash_args(op as u64, &v.args));
                     let cfg = Cfg { prop, tier: Tier::Quick, seed: 0 };
                     let _ = std::fs::write(&path, serde_json::to_string_pretty(&v.to_json(&cfg)).unwrap());
-                    println!("VIOLATION property={} replay={}", prop, path);
-                    println!("  # {} args={:x?} does not return (kind=hang)", v.op, v.args);
+                    crate::outln!("VIOLATION property={} replay={}", prop, path);
+                    crate::outln!("  # {} args={:x?} does not return (kind=hang)", v.op, v.args);
                     // the run cannot finish: leave a (schema-valid) evidence file describing just this
                     let ev = json!({"property_id": prop, "tier": "quick", "seed": 0, "level": "exploration", "wall_s": limit_s as f64, "violations": 1,
                         "coverage": {"evaluations": 1, "distinct_nontrivial": 2, "rule": "run aborted by the watchdog: one case did not return", "samples": [v.to_json(&cfg)]}});
@@ -675,7 +675,7 @@ pub fn run(rep: &mut Report) {
     // operation name mentions and that are not in the reviewed exclusion list
     let unregistered = unregistered_public_fns();
     if !unregistered.is_empty() {
-        println!("NOTE: public functions not covered by the C16 registry: {:?}", unregistered);
+        crate::outln!("NOTE: public functions not covered by the C16 registry: {:?}", unregistered);
     }
     rep.extra.insert("public_fns_not_in_registry".into(), json!(unregistered));
 }
@@ -731,7 +731,7 @@ pub fn list_stubs() -> i32 {
             partial.push(o.name.clone());
         }
     }
-    println!("{}", serde_json::to_string_pretty(&json!({"stubs": stubs.iter().chain(partial.iter()).collect::<Vec<_>>(), "always": stubs, "partial": partial})).unwrap());
+    crate::outln!("{}", serde_json::to_string_pretty(&json!({"stubs": stubs.iter().chain(partial.iter()).collect::<Vec<_>>(), "always": stubs, "partial": partial})).unwrap());
     0
 }
 
